@@ -17,8 +17,11 @@ RULE = ('pipelines of 1-4 operators from the property\'s list (select, '
         'where, selectMany, skip, take, takeWhile, skipWhile, append, concat, '
         'distinct, enumerate, zip, accumulate, insert, delete, replace, '
         'slice, memorize, member projection, join outer side; optionally '
-        'ending in first/any/all/indexOf/indexWhere) over an endless source '
-        '0,1,2,... with tick-instrumented lambdas from a periodic family; k '
+        'ending in first/any/all/indexOf/indexWhere; the operator form + '
+        'with a list on either side; distinct by key, accumulate with seed) '
+        'over an endless source 0,1,2,... - a context variable, or the data '
+        'of the evaluation as a one-shot iterator or as an unsized '
+        're-iterable host collection - with tick-instrumented lambdas from a periodic family; k '
         'in 0..6 results are pulled; non-trivial = k >= 1 and the pipeline '
         'has an operator that would behave differently if it materialised; '
         'distinct = distinct (pipeline, k)')
@@ -228,6 +231,10 @@ OPS = {
                lambda g, p, c: itertools.chain(g, [-1, -2]), None),
     'concat-front': ('[-1, -2].concat({c})',
                      lambda g, p, c: itertools.chain([-1, -2], g), None),
+    'plus-list-front': ('([-1, -2] + {c})',
+                        lambda g, p, c: itertools.chain([-1, -2], g), None),
+    'plus-list-back': ('({c} + [-1])',
+                       lambda g, p, c: itertools.chain(g, [-1]), None),
     'distinct': ('{c}.distinct()', op_distinct, None),
     'distinct-by': ('{c}.distinct({L})', op_distinct_by, 'S'),
     'accumulate-seed': ('{c}.accumulate({L}, 100)', op_accumulate_seed, 'F'),
@@ -270,8 +277,8 @@ def _lambda_src(step):
     return tick(step['lid'], fam[kind][step[kind]][0])
 
 
-def build_text(steps):
-    text = '$src'
+def build_text(steps, root='$src'):
+    text = root
     for s in steps:
         tpl = (OPS.get(s['op']) or END[s['op']])[0]
         text = tpl.format(c=text, L=_lambda_src(s), n=s.get('n'),
@@ -311,14 +318,25 @@ def check_pipeline(run, case):
     except TypeError:
         run.exclude('model pipeline fails')
         return
-    text = build_text(steps)
+    # the source reaches the expression as a context variable, or as the
+    # data of the evaluation (`$`, through input conversion): a one-shot
+    # iterator, or a host collection that is re-iterable but not a sequence
+    via = case.get('via', 'var')
+    text = build_text(steps, '$src' if via == 'var' else '$')
     log = []
     ctx = common.child()
     common.add_tick(ctx, log)
-    src = Source(budget=mc.pulls + 60)
-    ctx['$src'] = src
+    if via == 'data-reiterable':
+        src = common.ReSource(budget=mc.pulls + 60)
+    else:
+        src = Source(budget=mc.pulls + 60)
+    if via == 'var':
+        ctx['$src'] = src
     try:
-        res = _engine()(text).evaluate(context=ctx)
+        if via == 'var':
+            res = _engine()(text).evaluate(context=ctx)
+        else:
+            res = _engine()(text).evaluate(data=src, context=ctx)
         if exp[0] == 'scalar':
             got = ('scalar', res)
         else:
@@ -337,8 +355,8 @@ def check_pipeline(run, case):
     streaming = any(s['op'] != 'memorize' for s in steps)
     run.case(case, (k >= 1 or exp[0] == 'scalar') and streaming,
              fp=([{kk: v for kk, v in s.items() if kk != 'lid'}
-                  for s in steps], k),
-             cls=['pipeline', 'len=%d' % len(steps)] + [
+                  for s in steps], k, via),
+             cls=['pipeline', 'len=%d' % len(steps), 'via=' + via] + [
                  'op=' + s['op'] for s in steps])
     ic = '>'.join(s['op'] for s in steps)
     if got[0] == 'abort':
@@ -413,7 +431,9 @@ def pipelines(draw):
         if op == 'indexOf':
             s['v'] = draw(st.integers(0, 12))
         steps.append(s)
-    return {'kind': 'pipeline', 'steps': steps, 'k': draw(st.integers(0, 6))}
+    return {'kind': 'pipeline', 'steps': steps, 'k': draw(st.integers(0, 6)),
+            'via': draw(st.sampled_from(['var', 'var', 'data-iterator',
+                                         'data-reiterable']))}
 
 
 def _shard(run, n, shard):
